@@ -852,24 +852,27 @@ def levelCheck (v : View) (cur lvDb lvTbl : String) (privs : List PPriv) : Optio
     (firstIsAll privs).map fun all =>
       userHasPrivileges v cur [{ db := lvDb, tbl := lvTbl, statics := if all then allTblWithGrant else convertPrivs privs }]
 
-/-- Go: `GrantRole.CheckAuth` / `RevokeRole.CheckAuth`. -/
-def roleCheck (v : View) (cur : String) (st : St σ) (ui : Nat) (roles : List (String × String)) : Bool :=
+/-- Go: `GrantRole.CheckAuth` / `RevokeRole.CheckAuth` (`keys`/`edges`: the account keys and role
+edges of the state, `ui`: position of the session's account). -/
+def roleCheck (v : View) (cur : String) (keys : List (String × String)) (edges : List Edge) (ui : Nat)
+    (roles : List (String × String)) : Bool :=
   userHasPrivileges v cur [{ statics := [P_Super] }] ||
-  (match st.keys[ui]? with
+  (match keys[ui]? with
    | none => false
    | some uk =>
-     let edges := st.edges.filter (fun e => e.toHost = uk.2 ∧ e.toUser = uk.1)
+     let mine := edges.filter (fun e => e.toHost = uk.2 ∧ e.toUser = uk.1)
      roles.all (fun r =>
-       match getUserIdx st.keys r.1 r.2 true with
+       match getUserIdx keys r.1 r.2 true with
        | none => false
        | some j =>
-         match st.keys[j]? with
+         match keys[j]? with
          | none => false
-         | some rk => edges.any (fun e => e.fromUser = rk.1 ∧ e.fromHost = rk.2 ∧ e.admin)))
+         | some rk => mine.any (fun e => e.fromUser = rk.1 ∧ e.fromHost = rk.2 ∧ e.admin)))
 
 /-- Go: `grantAndRevoke` → `node.CheckAuth`; `none` = panic. `adminOnly` is what
 `Catalog.ExternalStoredProcedure` says about the routine (always false for the in-memory catalog). -/
-def checkAuthNode (v : View) (cur : String) (st : St σ) (ui : Nat) (adminOnly : Bool) : Stmt → Option Bool
+def checkAuthNode (v : View) (cur : String) (keys : List (String × String)) (edges : List Edge) (ui : Nat)
+    (adminOnly : Bool) : Stmt → Option Bool
   | .grant lvDb lvTbl ot privs _ _ _ =>
     if userHasPrivileges v cur [{ db := "mysql", statics := [P_Update] }] then some true
     else if (lvDb = "*" ∧ lvTbl = "*") ∨ (lvDb ≠ "*" ∧ lvTbl = "*") then levelCheck v cur lvDb lvTbl privs
@@ -881,8 +884,8 @@ def checkAuthNode (v : View) (cur : String) (st : St σ) (ui : Nat) (adminOnly :
   | .revoke lvDb lvTbl _ privs _ _ =>
     if userHasPrivileges v cur [{ db := "mysql", statics := [P_Update] }] then some true
     else levelCheck v cur lvDb lvTbl privs
-  | .grantRole roles _ _ => some (roleCheck v cur st ui roles)
-  | .revokeRole roles _ _ _ => some (roleCheck v cur st ui roles)
+  | .grantRole roles _ _ => some (roleCheck v cur keys edges ui roles)
+  | .revokeRole roles _ _ _ => some (roleCheck v cur keys edges ui roles)
   | _ => some false
 
 def chunk2 : List String → List (String × String)
@@ -896,8 +899,9 @@ def chunk4 : List String → List (String × String × String × String)
 def isNat (s : String) : Bool := !s.isEmpty && s.all Char.isDigit
 
 /-- Go: `defaultAuthorizationHandler.HandleAuth` for an enabled handler whose session account is
-`st.users[ui]` with active view `v`. -/
-def handleAuth (v : View) (cur : String) (st : St σ) (ui : Nat) (adminOnly : Bool) (stmt : Stmt)
+`keys[ui]` with active view `v`. -/
+def handleAuth (v : View) (cur : String) (keys : List (String × String)) (edges : List Edge) (ui : Nat)
+    (adminOnly : Bool) (stmt : Stmt)
     (authType targetType : String) (names : List String) : Outcome :=
   let uhp (ops : List Op) := userHasPrivileges v cur ops
   -- first switch: Except-like triple (early outcome | hasPrivileges, privilegeTypes, targetType)
@@ -908,7 +912,7 @@ def handleAuth (v : View) (cur : String) (st : St σ) (ui : Nat) (adminOnly : Bo
     | none =>
       if authType = "ALTER_USER" then
         if uhp [{ db := "mysql", statics := [P_Update] }] || uhp [{ statics := [P_CreateUser] }] then .inr (true, [], targetType)
-        else match names.head?, st.keys[ui]? with
+        else match names.head?, keys[ui]? with
           | some n, some uk => .inr (decide (uk.1 = n), [], targetType)
           | _, _ => .inl .crash
       else if authType = "BINLOG" then
@@ -930,7 +934,7 @@ def handleAuth (v : View) (cur : String) (st : St σ) (ui : Nat) (adminOnly : Bo
       else if authType = "DROP_ROLE" then
         .inr (uhp [{ statics := [P_DropRole] }] || uhp [{ statics := [P_CreateUser] }], [], targetType)
       else if authType ∈ ["GRANT_PRIVILEGE", "GRANT_PROXY", "GRANT_ROLE", "REVOKE_ALL", "REVOKE_PRIVILEGE", "REVOKE_PROXY", "REVOKE_ROLE"] then
-        match checkAuthNode v cur st ui adminOnly stmt with
+        match checkAuthNode v cur keys edges ui adminOnly stmt with
         | some b => .inr (b, [], targetType)
         | none => .inl .crash
       else if authType = "RENAME" then
@@ -977,18 +981,20 @@ def handleAuth (v : View) (cur : String) (st : St σ) (ui : Nat) (adminOnly : Bo
       match r with | .inl o => o | .inr b => fin b
     else if tt = "GLOBAL" then fin (uhp [{ statics := ptypes }] && has)
     else if tt = "DB_TABLE_IDENTS" then
-      if names.length % 2 ≠ 0 then .crash
-      else
-        let r := (chunk2 names).foldl (fun (acc : Outcome ⊕ Bool) (dt : String × String) =>
-          match acc with
-          | .inl o => .inl o
-          | .inr false => .inr false
-          | .inr true =>
-            if isInfoSchema dt.1 then .inr true
-            else match authCheckNames v cur dt.1 dt.2 with
-              | .ok => .inr (uhp [{ db := authDbName cur dt.1, tbl := dt.2, statics := ptypes }])
-              | o => .inl o) (.inr has)
-        match r with | .inl o => o | .inr b => fin b
+      -- loop `for i := 0; i < len && hasPrivileges; i += 2`; a trailing lone name is indexed out of
+      -- range only when the loop gets that far
+      let r := (chunk2 names).foldl (fun (acc : Outcome ⊕ Bool) (dt : String × String) =>
+        match acc with
+        | .inl o => .inl o
+        | .inr false => .inr false
+        | .inr true =>
+          if isInfoSchema dt.1 then .inr true
+          else match authCheckNames v cur dt.1 dt.2 with
+            | .ok => .inr (uhp [{ db := authDbName cur dt.1, tbl := dt.2, statics := ptypes }])
+            | o => .inl o) (.inr has)
+      match r with
+      | .inl o => o
+      | .inr b => if b ∧ names.length % 2 ≠ 0 then .crash else fin b
     else if tt = "DB_TABLE_IDENT" ∨ tt = "DB_TABLE_COLUMN_IDENT" then
       match names with
       | d :: t :: rest =>
@@ -1007,8 +1013,9 @@ inductive Call where
   | ct (db tbl : String)              -- CheckTable
   deriving Repr, Inhabited
 
-def evalCall (v : View) (cur : String) (st : St σ) (ui : Nat) (adminOnly : Bool) (stmt : Stmt) : Call → Outcome
-  | .ha at_ tt names => handleAuth v cur st ui adminOnly stmt at_ tt names
+def evalCall (v : View) (cur : String) (keys : List (String × String)) (edges : List Edge) (ui : Nat)
+    (adminOnly : Bool) (stmt : Stmt) : Call → Outcome
+  | .ha at_ tt names => handleAuth v cur keys edges ui adminOnly stmt at_ tt names
   | .cd d => authCheckNames v cur d ""
   | .ct d t => if t = "" then .tblDenied else authCheckNames v cur d t
 
@@ -1021,17 +1028,16 @@ def step (st : St σ) (who : String × String) (cur : String) (calls : List Call
     match exec A st cur stmt with
     | (st', none) => (st', "ok")
     | (st', some e) => (st', e.str)
-  if calls.isEmpty then run
-  else
-    match getUserIdx st.keys who.1 who.2 false with
+  -- `NewQueryState`: a session whose (user, address) matches no account is refused outright (parse.go)
+  match getUserIdx st.keys who.1 who.2 false with
+  | none => (st, Outcome.noAccount.str)
+  | some ui =>
+    match st.users[ui]? with
     | none => (st, Outcome.noAccount.str)
-    | some ui =>
-      match st.users[ui]? with
-      | none => (st, Outcome.noAccount.str)
-      | some u =>
-        let v := A.view (activePrivs A st u)
-        let o := calls.foldl (fun (acc : Outcome) c => if acc = .ok then evalCall v cur st ui adminOnly stmt c else acc) .ok
-        if o = .ok then run else (st, o.str)
+    | some u =>
+      let v := A.view (activePrivs A st u)
+      let o := calls.foldl (fun (acc : Outcome) c => if acc = .ok then evalCall v cur st.keys st.edges ui adminOnly stmt c else acc) .ok
+      if o = .ok then run else (st, o.str)
 
 structure Step where
   who : String × String
